@@ -1709,8 +1709,13 @@ class CParser:
                 return c_ast.DoWhile(cond, stmt, self._tok_coord(tok))
             case "FOR":
                 self._expect("LPAREN")
-                if self._starts_declaration():
-                    decls = self._parse_declaration()
+                if self._starts_declaration() or self._peek_type() == "_STATIC_ASSERT":
+                    if self._peek_type() == "_STATIC_ASSERT":
+                        # In C11 a static assertion is a declaration too.
+                        decls = self._parse_static_assert()
+                        self._expect("SEMI")
+                    else:
+                        decls = self._parse_declaration()
                     init = c_ast.DeclList(decls, self._tok_coord(tok))
                     cond = self._parse_expression_opt()
                     self._expect("SEMI")
